@@ -147,8 +147,25 @@ def well_formed(case):
         return False
 
 
+def _render_src(src, data):
+    from genshi.template import MarkupTemplate
+    try:
+        return ['ok', MarkupTemplate(src).generate(**data).render('xml', encoding=None)]
+    except Exception as e:  # noqa
+        return ['err', type(e).__name__]
+
+
 def oracle_case(case):
     """-> failure dict or None.  `case` = {'kind': …, 'kids': […], …}"""
+    if case.get('kind') == 'rawhints':
+        # source-level case outside the generator's template vocabulary: the same template text with
+        # %(buffer)s replaced by "true" and by "false" must render alike (body calls select() once)
+        r0 = _render_src(case['src'] % {'buffer': 'true'}, case.get('data', {}))
+        r1 = _render_src(case['src'] % {'buffer': 'false'}, case.get('data', {}))
+        if r0 != r1:
+            return {'case': case, 'what': 'buffer="false" does not change the output of a body that calls select() at most once',
+                    'expected': r0, 'observed': r1}
+        return None
     if not well_formed(case):
         return None
     kind = case['kind']
